@@ -11,15 +11,22 @@ PROPS = "Props/C18"
 FUEL = 1000000       # model recursion depth (Go: 256 MB stack); the draw budget (60000 draws, both sides) normally triggers first
 
 
+def run_lines_e(exe, args, lines, **kw):
+    """run_lines that maps no input lines to no output lines"""
+    if not lines:
+        return 0, [], ""
+    return run_lines(exe, args, lines, **kw)
+
+
 def run(ctx):
     quick = ctx.quick()
     f7dir = ctx.scratch / "f7"
     f7dir.mkdir(exist_ok=True)
     (f7dir / "s.tl").write_text(F7_SCHEMA)
     corpus = [c for c in repo_corpus(quick) if quick is False or c[0] != "cases_nosan"]
-    st = family_setup(ctx, PROPS, n_random=6 if quick else 40, corpus=corpus,
+    st = family_setup(ctx, PROPS, n_random=5 if quick else 40, corpus=corpus,
                       extra_specs=[("f7", [f7dir / "s.tl"], ["--tl2WhiteList=*"], "*", True)])
-    nseeds = 12 if quick else 200
+    nseeds = 8 if quick else 200
     stats = {"schemas": 0, "types": 0, "fills": 0, "model_unsupported_types": 0, "diverging_both": 0, "kernel_rejected": 0,
              "types_terminating_by_theorem": 0, "xwf_false": 0, "max_tl1_bytes": 0, "tl2_written": 0}
     mism, bad, samples, unit_errors, skipped, diverging = [], [], [], [], [], []
@@ -43,7 +50,7 @@ def run(ctx):
         tops = tops_of(u)
         rank = rank_certificate(u.ins)
         pre = ["xwf", "ranked " + " ".join(str(r) for r in rank)]
-        rc, pout, err = run_lines(st.ref, margs, pre)
+        rc, pout, err = run_lines_e(st.ref, margs, pre)
         uerr = []
         if pout[:1] != ["ok true"]:
             uerr.append((u.name, f"xwf (conditions of the validity theorem) is not true for the generator dump: {pout[:1]} {err[-300:]}"))
@@ -58,7 +65,7 @@ def run(ctx):
                 ml.append(f"rand {tid} {name} {seed} {FUEL}")
                 meta_.append((tid, name))
         go = run_lines_resilient(u.gen.exe, [], gl, timeout=600, max_restarts=60)
-        rc, mo, err = run_lines(st.ref, margs, ml, timeout=900)
+        rc, mo, err = run_lines_e(st.ref, margs, ml, timeout=900)
         if rc != 0 or len(mo) != len(ml) or len(go) != len(gl):
             uerr.append((u.name, f"driver failed: model rc={rc} lines {len(mo)}/{len(ml)} go lines {len(go)}/{len(gl)} {err[-300:]}"))
             with lock:
